@@ -1684,7 +1684,7 @@ def tensor_getattr(t, it, ctx, name):
         return VTuple([VNum(d.size) for d in t.dims[-2:]], is_size=True)
     if name == "batch_dim":
         return VNum(len(t.dims) - 2)
-    if name in t.meta:
+    if name in t.meta and name not in ("uf", "cat_parts", "index_source", "version", "inverse_of", "ghost", "chol_of"):
         return t.meta[name]
     ext = it.optable.get("tensor_method." + name)
     if ext is not None:
